@@ -100,6 +100,14 @@ def _generate_plans(tier, seed):
                 for S in gr.antichains(go):
                     for st, t in _targets(go):
                         yield {"g": go, "S": S, "t": t, "st": list(st)}
+    # human-readable ids that CONTAIN one another (acct, bill_acct, ...): every acyclic history on <=3 (thorough: 4) revisions
+    # with nested names in both nesting directions (a string test where a tuple/set test is meant shows up only here)
+    for nested in (("acct", "b_acct", "c_b_acct", "d_c_b_acct"), ("d_c_b_acct", "c_b_acct", "b_acct", "acct")):
+        for n in ((2, 3, 4) if tier == "thorough" else (2, 3)):
+            for g in gr.acyclic_graphs(n, names=nested):
+                for S in gr.antichains(g):
+                    for st, t in _targets(g):
+                        yield {"g": g, "S": S, "t": t, "st": list(st)}
     # labelled family: every acyclic history on 3 and (sampled) 4 revisions, a branch label on one revision (and sometimes
     # a second one elsewhere), every antichain state, the label / head forms
     for n in (2, 3, 4):
